@@ -23,7 +23,8 @@ type Options struct {
 	AllowPanic         bool // uncaught panics in managed threads are outcomes, not violations
 	MustCollide        bool // vacuity guard: more than one distinct outcome expected
 	NoWarmup           bool
-	MaxExecs           int // cap on executions (0 = none); hitting it clears Exhaustive
+	NoRace             bool // switch off data-race detection and race-directed scheduling points
+	MaxExecs           int  // cap on executions (0 = none); hitting it clears Exhaustive
 	Budget             time.Duration
 	AllowDriverBlocked bool // do not treat a main thread that is still blocked at quiescence as a deadlock
 	Prune              bool // happens-before state caching (sound only if all cross-thread communication is tracked; see hb.go)
@@ -44,6 +45,9 @@ type Run struct {
 }
 
 func (r *Run) Logf(format string, a ...any) {
+	if t := me(); t != nil && t.killed {
+		return // torn-down thread: not part of the execution any more
+	}
 	r.mu.Lock()
 	r.log = append(r.log, fmt.Sprintf(format, a...))
 	r.mu.Unlock()
@@ -51,6 +55,9 @@ func (r *Run) Logf(format string, a ...any) {
 
 // Failf records a violation of the property in this execution.
 func (r *Run) Failf(format string, a ...any) {
+	if t := me(); t != nil && t.killed {
+		return // torn-down thread: not part of the execution any more
+	}
 	r.mu.Lock()
 	r.fails = append(r.fails, fmt.Sprintf(format, a...))
 	r.mu.Unlock()
@@ -61,6 +68,9 @@ func (r *Run) Failed() bool { return len(r.fails) > 0 }
 // Outcome adds a component to the execution's observable outcome (used to count
 // distinct outcomes; one outcome from many schedules means nothing collided).
 func (r *Run) Outcome(format string, a ...any) {
+	if t := me(); t != nil && t.killed {
+		return // torn-down thread: not part of the execution any more
+	}
 	r.mu.Lock()
 	r.outcome = append(r.outcome, fmt.Sprintf(format, a...))
 	r.mu.Unlock()
@@ -98,10 +108,16 @@ type Violation struct {
 	Log      []string `json:"log,omitempty"`
 	Finger   string   `json:"fingerprint"`
 	Class    string   `json:"class"`
+	// RaceSites: accesses that were scheduling points in this execution because a data race
+	// had been observed on them (needed to replay the schedule)
+	RaceSites []string `json:"race_sites,omitempty"`
 }
 
 // Result summarises one exploration.
 type Result struct {
+	RaceSites      []string       `json:"race_sites,omitempty"`  // accesses turned into scheduling points
+	RacePairs      []string       `json:"race_pairs,omitempty"`  // unordered conflicting access pairs observed
+	RacePasses     int            `json:"race_passes,omitempty"` // re-explorations after new racy sites
 	Name           string         `json:"name"`
 	Kind           string         `json:"kind"`
 	Executions     int            `json:"executions"`
@@ -205,6 +221,10 @@ func Explore(o Options, body func(*Run)) *Result {
 		if rp.Scenario != o.Name {
 			return res
 		}
+		raceBeginScenario(!o.NoRace)
+		for _, st := range rp.RaceSites {
+			race.sites[st] = true
+		}
 		r, fails := Replay(o, body, rp.Choices)
 		fmt.Printf("REPLAY %s choices=%v\n  outcome=%v\n  log=%v\n  fails=%v\n", o.Name, rp.Choices, r.outcome, r.log, fails)
 		res.Executions, res.States, res.Transitions = 1, 1, 1
@@ -222,6 +242,8 @@ func Explore(o Options, body func(*Run)) *Result {
 	}
 	s.visited = nil
 	defer func() { s.visited = nil }()
+	raceBeginScenario(!o.NoRace)
+	defer raceBeginScenario(false)
 	if !o.NoWarmup {
 		oneExec(&o, body, nil)
 	}
@@ -279,12 +301,14 @@ func Explore(o Options, body func(*Run)) *Result {
 				// different violation in the same scenario is still found
 				if !knownSeen[kc] {
 					knownSeen[kc] = true
+					sites, _ := raceReport()
 					res.Violations = append(res.Violations, Violation{Scenario: o.Name, Msgs: r.fails, Choices: choices, Log: r.log,
-						Finger: fingerprint(o.Name, cls), Class: cls})
+						Finger: fingerprint(o.Name, cls), Class: cls, RaceSites: sites})
 				}
 			} else {
+				sites, _ := raceReport()
 				res.Violations = append(res.Violations, Violation{Scenario: o.Name, Msgs: r.fails, Choices: choices, Log: r.log,
-					Finger: fingerprint(o.Name, cls), Class: cls})
+					Finger: fingerprint(o.Name, cls), Class: cls, RaceSites: sites})
 				stop = true
 				return
 			}
@@ -309,20 +333,36 @@ func Explore(o Options, body func(*Run)) *Result {
 			cost += int(c.cost[c.chosen])
 		}
 	}
-	for b := 0; b <= o.Bound; b++ {
-		execs, points = 0, 0
-		s.visited = map[stateKey]int16{}
-		for k := range res.Outcomes {
-			delete(res.Outcomes, k)
+	// data races seen in the default schedule already refine the first pass
+	racePromote()
+	for pass := 0; ; pass++ {
+		for b := 0; b <= o.Bound; b++ {
+			execs, points = 0, 0
+			s.visited = map[stateKey]int16{}
+			for k := range res.Outcomes {
+				delete(res.Outcomes, k)
+			}
+			explore(nil, b)
+			res.Executions += execs
+			res.Points += points
+			if stop {
+				break
+			}
+			res.BoundCompleted = b
+			res.States = execs // schedules explored at the largest completed bound
 		}
-		explore(nil, b)
-		res.Executions += execs
-		res.Points += points
-		if stop {
+		// race-directed refinement: accesses found racing during this pass become
+		// scheduling points and the search starts over (a fixpoint is reached quickly: the
+		// set of instrumented sites is finite and only grows)
+		if stop || pass >= 5 || !racePromote() {
 			break
 		}
-		res.BoundCompleted = b
-		res.States = execs // schedules explored at the largest completed bound
+		res.RacePasses = pass + 1
+		res.BoundCompleted = -1
+	}
+	res.RaceSites, res.RacePairs = raceReport()
+	if os.Getenv("VRT_RACE_DEBUG") != "" {
+		AddNote("RACE-DEBUG %s: on=%v passes=%d sites=%v pairs=%v shadow=%d", o.Name, race.on, res.RacePasses, res.RaceSites, res.RacePairs, len(race.shadow))
 	}
 	if stop && res.CapHit != "" {
 		res.Exhaustive = false
@@ -671,6 +711,8 @@ type replayFile struct {
 	Scenario string   `json:"scenario"`
 	Choices  []int    `json:"choices"`
 	History  []string `json:"history"`
+	// accesses that were scheduling points when the violation was found
+	RaceSites []string `json:"race_sites"`
 }
 
 var (
